@@ -12,7 +12,8 @@
   * `break` (`Ctl.brk`) next to `return`;
   * list concatenation `a + b`, `x.copy()` (a call of `list`);
   * a time stamp may be compared with `-float('inf')` (the initial `residual_start` of the bounded once): `XT`;
-  * `float('nan')` is truthy (the `last = float('nan')` of case 1 of the online intersection).
+  * `float('nan')` is truthy (`prev = float('nan')` of the operation classes; case 1 of the online intersection had
+    `last = float('nan')` before its repair to `last = []`).
 
   `harness/py2lean.py` translates the sources into `Rtamt/Py/GeneratedDenseOn.lean` on every run; the driver command
   `denseongen` runs the translated classes next to the real monitor; `RtamtProofs/GenDenseOn*.lean` relate them to the
